@@ -11,6 +11,8 @@ from __future__ import annotations
 
 import ast
 
+import numpy as np
+
 import z3
 
 from . import lib
@@ -99,6 +101,8 @@ def _arr_setitem(self, it, idx, v):
         return
     if isinstance(idx, slice) and not any(is_sym(x) for x in (idx.start, idx.stop, idx.step)):
         rng = range(len(self.vals))[idx]
+        if isinstance(v, np.ndarray) and v.ndim == 1:
+            v = [x.item() for x in v]
         if isinstance(v, (SArrayLite, list)):
             vs = v.vals if isinstance(v, SArrayLite) else v
             if len(vs) != len(rng):
@@ -429,6 +433,25 @@ def _install():
 
     lib.handler(np.array)(_array)
     lib.handler(np.asarray)(_array)
+
+    def _flat(it, x):
+        if isinstance(x, SArrayLite):
+            return list(x.vals)
+        if isinstance(x, SSeries):
+            return list(x.vals)
+        if isinstance(x, np.ndarray):
+            if x.ndim > 1:
+                raise Undecided("np.append of a multi-dimensional array")
+            return [v.item() for v in x]
+        if isinstance(x, (list, tuple)):
+            return list(x)
+        return [x]
+
+    @lib.handler(np.append)
+    def _append(it, arr, values, axis=None):
+        if axis is not None:
+            raise Undecided("np.append with an axis")
+        return SArrayLite(_flat(it, arr) + _flat(it, values))
 
     @lib.handler(np.zeros)
     def _zeros(it, n, dtype=float, **kw):
